@@ -33,6 +33,7 @@ import (
 	"github.com/zmap/zcrypto/x509/revocation/ocsp"
 	"verifmc/internal/ev"
 	"verifmc/internal/fx"
+	"verifmc/internal/nohb"
 )
 
 type witness struct {
@@ -540,6 +541,10 @@ func subVals(b byte) []byte {
 }
 
 func main() {
+	if nohb.IsWorker() {
+		nohb.WorkerMain(reentrantOps(), reentrantRepoDir())
+		return
+	}
 	ev.Main("C13", "model_checking", func(c *ev.Ctx) {
 		p, err := buildPKI()
 		if err != nil {
@@ -757,6 +762,7 @@ func main() {
 		if h.malleable != nil {
 			c.Set("accepted_ecdsa_signatures_refused_by_VerifyASN1_for_encoding_only", h.malleable)
 		}
+		reentrantPhase(c)
 		c.Set("mutants_byte_level", nByte)
 		c.Set("mutants_tlv", nTLV)
 	})
